@@ -29,6 +29,10 @@ def reaper_loaders(ctx):
 
     def polls(fn):
         return any(isinstance(n, ast.While) for n in walk_shallow(fn.node)) and any(nm in ("os.path.exists", "os.path.isfile") for _, _, nm in all_calls(ctx, fn))
+    # the loader reads the file whose name it is given (a helper that reads the *batch* file to size a stand-in is not it)
+    for f in cands:
+        if loader is None and any(nm == CROP + ".read_from_disk" and c.args and isinstance(c.args[0], ast.Name) and c.args[0].id in f.params for _, c, nm in all_calls(ctx, f)):
+            loader = f
     for f in cands:
         if any(nm == CROP + ".read_from_disk" for _, _, nm in all_calls(ctx, f)) and loader is None:
             loader = f
